@@ -518,6 +518,22 @@ theorem lda_pooled_covariance (bs : CData) (classes : Nat) (reg : Rat) (i j : Na
   rw [rsum_congr this, rsum_div]
   ring
 
+/-- the weighted trainer likewise (positive weights): `Σ w x xᵀ/Σw − Σ_c (W_c/Σw)·m_c m_cᵀ` is the
+weighted pooled within-class covariance `Σ_i w_i (x_i − m_{c_i})(x_i − m_{c_i})ᵀ / Σw` (plus `reg`
+on the diagonal) -/
+theorem wlda_pooled_covariance (bs : WCData) (classes : Nat) (reg : Rat) (i j : Nat)
+    (hlab : ∀ p ∈ bs.flatten, p.2.1 < classes) (hw : ∀ p ∈ bs.flatten, 0 < p.2.2) :
+    wldaCov bs classes reg i j
+      = wWithinScatter bs i j / sumOfWeights bs + (if i = j then reg else 0) := by
+  unfold wldaCov
+  rw [← wscatter_identity bs classes i j hlab hw]
+  have : ∀ c, c < classes →
+      classWeight bs c / sumOfWeights bs * (wldaMean bs c i * wldaMean bs c j)
+      = classWeight bs c * (wldaMean bs c i * wldaMean bs c j) / sumOfWeights bs := by
+    intro c _; ring
+  rw [rsum_congr this, rsum_div]
+  ring
+
 /-- **FisherLDA's global mean** as it should be, `Σ_c n_c·m_c / n`, is the mean of the inputs;
 the pinned source divides once more by `n` (`fisherMeanPinned = mean / n`, finding F-C15-6), so
 its offset `−W·mean` does not centre the projected data. -/
